@@ -1,0 +1,20 @@
+"""Verification seam (off by default).
+
+When the environment variable OVLD_VERIF is "1", a verification harness may
+install a ``controller`` that chooses the iteration order of the library's
+internal sets of types / handlers / candidates. With the variable unset (the
+shipped behaviour) ``ACTIVE`` is False and no call site consults this module.
+"""
+
+import os
+
+ACTIVE = os.environ.get("OVLD_VERIF") == "1"
+
+controller = None
+
+
+def order(site, items):
+    """Return ``items`` in the order chosen by the controller, if any."""
+    if controller is None or items is None:
+        return items
+    return controller(site, items)
